@@ -119,7 +119,7 @@ let parse_op (toks : string list) : op =
   | "unpad" :: i :: p :: a -> padding p >>= fun p -> place a >>= fun pl -> OpUnpad (id i, p, pl)
   | "async" :: i :: a -> place a >>= fun p -> OpAsync (id i, p)
   | ["ivstate"; i] -> OpIvState (id i)
-  | ["buf"; i; d] -> OpBuf (id i, darg d)
+  | ["buf"; i; "ip"; d] -> OpBuf (id i, darg d)
   | ["getstate"; i] -> OpGetState (id i)
   | "apply" :: i :: a -> place a >>= fun p -> OpApply (id i, p)
   | ["seek"; i; t; p] -> seeknum t >>= fun t -> OpSeek (id i, t, z_of_dec p)
